@@ -32,7 +32,15 @@ def make_keymap(kind):
     raise ValueError(kind)
 
 
-def make_backend(kind, tmp, name='a'):
+ARCHIVE_OPTIONS = {
+    # (serialized=False archives are read back through the import system and are unreliable inside one
+    #  long-running process - findings of C03/C04, not used here)
+    'file': [{}, {}, {'protocol': 2}, {'protocol': 'json'}],
+    'dir': [{}, {}, {'protocol': 'json'}, {'compression': 3}, {'protocol': 2}, {'memmode': 'r'}],
+}
+
+
+def make_backend(kind, tmp, name='a', variant=0):
     """returns (cache object handed to the decorator, the archive object or None, bare?)"""
     import klepto.archives as ka
     from klepto.archives import cache as kcache
@@ -45,9 +53,13 @@ def make_backend(kind, tmp, name='a'):
     if k == 'dict':
         a = ka.dict_archive(name, cached=False)
     elif k == 'file':
-        a = ka.file_archive(os.path.join(tmp, name + '.pkl'), cached=False)
+        o = ARCHIVE_OPTIONS['file']
+        oo = o[variant % len(o)]
+        # (a dotted file name + serialized=False is unreadable: the archive is imported as a module - finding F28, C03/C04)
+        a = ka.file_archive(os.path.join(tmp, name + ('_src.py' if oo.get('serialized') is False else '.pkl')), cached=False, **oo)
     elif k == 'dir':
-        a = ka.dir_archive(os.path.join(tmp, name + '_d'), cached=False)
+        o = ARCHIVE_OPTIONS['dir']
+        a = ka.dir_archive(os.path.join(tmp, name + '_d'), cached=False, **o[variant % len(o)])
     elif k == 'sql':
         a = _sqlite(tmp, name)
     else:
@@ -95,7 +107,7 @@ def gen_cfg(r, tier, idx):
                 nkeys=nkeys, nops=nops, raising=raising, keyerr=keyerr,
                 pre_mem=r.choice([0, 0, 0, 2, maxsize + 2]),
                 pre_arch=r.choice([0, 0, 3, maxsize + 3]),
-                malformed=malformed)
+                malformed=malformed, clone=False)
 
 
 def gen_ops(r, cfg):
@@ -142,6 +154,19 @@ def value_of(x):
     return [None, 0, '', x * 7 + 1, 'v%d' % x, -x][x % 6] if x > 2 else [None, 0, ''][x]
 
 
+_CUR = dict(log=[], raising=set(), keyerr=set())
+
+
+def fun(x):
+    """the memoized function of every trace: module level, so that dill pickles it by reference and
+    a restored copy of the decorated function shares the evaluation log"""
+    xx = x[0] if isinstance(x, list) else x
+    _CUR['log'].append(xx)
+    if xx in _CUR['keyerr']: raise KeyError(xx)
+    if xx in _CUR['raising']: raise Boom(xx)
+    return value_of(xx)
+
+
 class Runner:
     def __init__(self, cfg, tmp):
         import klepto, klepto.safe
@@ -155,15 +180,10 @@ class Runner:
         mod = klepto.safe if cfg['safe'] else klepto
         C = getattr(mod, cfg['algo'] + '_cache')
         raising, keyerr = set(cfg['raising']), set(cfg['keyerr'])
-        log = self.log
-        def fun(x):
-            xx = x[0] if isinstance(x, list) else x
-            log.append(xx)
-            if xx in keyerr: raise KeyError(xx)
-            if xx in raising: raise Boom(xx)
-            return value_of(xx)
+        _CUR.update(log=self.log, raising=raising, keyerr=keyerr)
         self.fun = fun
-        c, arch, bare = make_backend(cfg['backend'], tmp)
+        self.orig = None
+        c, arch, bare = make_backend(cfg['backend'], tmp, variant=cfg.get('variant', 0))
         self.bare = bare
         kw = dict(cache=c, keymap=make_keymap(cfg['keymap']))
         if cfg['algo'] not in ('no', 'inf'):
@@ -235,6 +255,68 @@ class Runner:
         if x in self.cfg['raising']: return {'err': 'user:%d' % x}
         return {'ok': self.V(value_of(x))}
 
+    def snapshot(self, f):
+        c = f.__cache__()
+        old_f, old_c = self.f, self.c
+        self.f, self.c = f, c
+        try:
+            o = self.observe()
+        finally:
+            self.f, self.c = old_f, old_c
+        return o
+
+    def clone(self):
+        """C20: serialise the decorated function with dill, restore it, compare, continue on the copy"""
+        import dill
+        f = self.f
+        try:
+            g = dill.loads(dill.dumps(f))
+        except Exception as e:
+            return {'clone': 'unpicklable', 'exc': type(e).__name__}
+        a, b = self.snapshot(f), self.snapshot(g)
+        def probe(h):
+            res = []
+            for a in (1.75, 2.5, -0.125, 3, 'x', (1.25, 2), 1e-9):
+                try: res.append(repr(h.key(a)))
+                except Exception as e: res.append(type(e).__name__)
+            return res
+        def astate(h):
+            c = h.__cache__()
+            res = []
+            for o in (c, getattr(c, 'archive', None), getattr(c, '__swap__', None)):
+                st = getattr(o, 'state', None)
+                res.append((type(o).__name__, sorted((k, repr(v)) for k, v in st.items()) if isinstance(st, dict) else None))
+            return res
+        same_cfg = (probe(g) == probe(f) and astate(g) == astate(f) and
+                    repr(g.__map__()) == repr(f.__map__()) and g.__mask__() == f.__mask__()
+                    and g.info().maxsize == f.info().maxsize and bool(g.archived()) == bool(f.archived())
+                    and type(g.__cache__()).__name__ == type(f.__cache__()).__name__
+                    and type(getattr(g.__cache__(), 'archive', None)).__name__ == type(getattr(f.__cache__(), 'archive', None)).__name__)
+        res = {'clone': 'ok', 'same_state': a == b, 'same_cfg': same_cfg, 'wrapped': g.__wrapped__ is f.__wrapped__,
+               'orig': a, 'copy': b}
+        self.orig, self.orig_snap = f, a
+        self.replaced = False
+        c0 = f.__cache__()
+        names = {type(c0).__name__, type(getattr(c0, 'archive', None)).__name__, type(getattr(c0, '__swap__', None)).__name__}
+        self.clone_persistent = bool(names & {'file_archive', 'dir_archive', 'sqltable_archive', 'sql_archive'})
+        self.f, self.c = g, g.__cache__()
+        return res
+
+    def independence(self):
+        """after the copy has been used: the original's in-memory state is as it was at pickling time
+        (a persistent archive is shared storage and may have changed)"""
+        if self.orig is None: return None
+        now = self.snapshot(self.orig)
+        a = self.orig_snap
+        persistent = self.clone_persistent
+        if self.bare and persistent:
+            return dict(ok=now['stats'] == a['stats'], what='stats')
+        if persistent:
+            cur = self.observe()
+            shared_ok = now['arch'] is None or cur['arch'] is None or self.replaced or now['arch'] == cur['arch']
+            return dict(ok=(now['mem'], now['stats']) == (a['mem'], a['stats']) and shared_ok, what='mem/stats/shared archive')
+        return dict(ok=(now['mem'], now['stats'], now['arch'], now['swap']) == (a['mem'], a['stats'], a['arch'], a['swap']), what='mem/stats/archive')
+
     # -- one op: returns (model line or None, out, tags)
     def do(self, op):
         kind = op[0]
@@ -261,6 +343,8 @@ class Runner:
             line = dict(op='call', key=key, fn=self.fnout(x),
                         victim=self.K(chosen[0]) if chosen else None)
             return line, out, args
+        if kind == 'clone':
+            return None, self.clone(), None
         if kind == 'lookup':
             key, rawk = self.keyin((op[1],))
             n0 = len(self.log)
@@ -299,6 +383,7 @@ class Runner:
             return dict(op='info'), {'info': [i.hit, i.miss, i.load, i.maxsize, i.size]}, None
         if kind == 'setarch':
             import klepto.archives as ka
+            self.replaced = True
             self.narch += 1
             xs = [x for x in op[2] if x not in self.cfg['raising']]
             if op[1] == 'null':
@@ -340,6 +425,10 @@ def run_trace(cfg, ops):
         for i, op in enumerate(ops):
             line, out, args = R.do(op)
             after = R.observe()
+            if R.orig is not None and op[0] != 'clone':
+                ind = R.independence()
+                if ind is not None and not ind['ok']:
+                    out = dict(out, independence=ind) if isinstance(out, dict) else dict(out=out, independence=ind)
             recs.append(dict(i=i, op=op, line=line, out=out, before=before, after=after))
             if line is not None: lines.append(line)
             before = after
@@ -363,4 +452,27 @@ def gen_trace(tier, idx):
 def work(args):
     tier, idx = args
     cfg, ops = gen_trace(tier, idx)
+    return run_trace(cfg, ops)
+
+
+def gen_clone_trace(tier, idx):
+    """suite `clone` (C20): a wrapper trace with 1-2 dill round-trips inserted at random points"""
+    r = rng('clone', tier, idx)
+    cfg = gen_cfg(r, tier, idx)
+    if cfg['backend'] in ('sql', 'bare_sql'):
+        cfg['backend'] = r.choice(['file', 'dir', 'bare_file', 'bare_dir'])   # sqlite connections cannot be pickled
+    cfg['clone'] = True
+    cfg['variant'] = r.randrange(12)
+    if cfg['backend'] in ('dir', 'bare_dir') and ARCHIVE_OPTIONS['dir'][cfg['variant'] % 6].get('serialized') is False:
+        cfg['keymap'] = 'md5'      # source-text entries are imported as modules named K_<key>: the key must be an identifier
+    if cfg['nops'] > 120: cfg['nops'] = 120
+    ops = gen_ops(r, cfg)
+    for _ in range(r.choice([1, 1, 2])):
+        ops.insert(r.randrange(len(ops) + 1), ['clone'])
+    return cfg, ops
+
+
+def work_clone(args):
+    tier, idx = args
+    cfg, ops = gen_clone_trace(tier, idx)
     return run_trace(cfg, ops)
